@@ -28,13 +28,27 @@ def make_scratch(edits, base=None):
     return d, ''
 
 
-def run_case(case, tag='st'):
+def worker_target(i):
+    """a private copy of the dependency cache so several scratch exports can run side by side"""
+    base = os.path.join(core.CACHE, 'target')
+    t = os.path.join(core.CACHE, f'target-st{i}')
+    if not os.path.isdir(t) and os.path.isdir(base):
+        tmp = t + f'.tmp{os.getpid()}'
+        shutil.copytree(base, tmp, symlinks=True)
+        try:
+            os.rename(tmp, t)
+        except OSError:
+            shutil.rmtree(tmp, ignore_errors=True)
+    return t
+
+
+def run_case(case, tag='st', target=None):
     d, why = make_scratch(case['edits'])
     if d is None:
         return dict(name=case['name'], status='skipped', why=why)
     try:
         try:
-            fp = core.export_facts(repo=d, tag=tag)
+            fp = core.export_facts(repo=d, tag=tag, target=target)
         except core.AnalysisFailed as e:
             return dict(name=case['name'], status='does-not-compile', why=str(e)[:300])
         facts = mirlib.Facts(fp)
